@@ -1,6 +1,10 @@
-// C09 correspondence harness: a real ola::rpc::RpcChannel on one end of a socketpair, the harness on
-// the other end writing raw bytes in the generated chunking and driving DescriptorReady()
-// level-triggered (as the select server does).  ASan watches the message buffer.
+// C09 correspondence harness.
+// one-channel mode: a real ola::rpc::RpcChannel on one end of a socketpair, the harness on the other end
+//   writing raw bytes in the generated chunking and driving DescriptorReady() level-triggered (as the
+//   select server does); ASan watches the message buffer.
+// two-channel mode (token "2"): two real RpcChannels back to back over a pipe pair; A is the client
+//   (calls methods of TestService and of OlaServerService), B serves TestService only, answers when the
+//   script says so (asynchronously, in any order).
 #include <errno.h>
 #include <fcntl.h>
 #include <stdint.h>
@@ -19,6 +23,8 @@
 #include "common/rpc/RpcChannel.h"
 #undef private
 #undef protected
+#include "common/protocol/Ola.pb.h"
+#include "common/protocol/OlaService.pb.h"
 #include "common/rpc/Rpc.pb.h"
 #include "common/rpc/RpcController.h"
 #include "common/rpc/RpcSession.h"
@@ -43,29 +49,72 @@ namespace {
 
 struct Ctx {
   std::ostringstream done, svc;
-  unsigned handler_runs;
-  Ctx() : handler_runs(0) {}
+  unsigned handler_runs[2];
+  Ctx() { handler_runs[0] = handler_runs[1] = 0; }
 };
 Ctx *g_ctx = NULL;
 
-// The service behind the channel: completes synchronously like TestServiceImpl.
+// The service behind the channel.  Synchronous like TestServiceImpl, or (async) it keeps the
+// completion callback and runs it when the script says so.
 class Service : public ola::rpc::TestService {
  public:
-  void Echo(RpcController*, const EchoRequest *request, EchoReply *response, CompletionCallback *done) {
-    g_ctx->svc << "|V" << vh::hex(string("Echo")) << ":" << vh::hex(request->SerializePartialAsString());
+  struct Pending {
+    RpcController *controller;
+    EchoReply *response;
+    CompletionCallback *done;
+  };
+  bool async;
+  unsigned nreq;
+  std::map<unsigned, Pending> pending;
+
+  Service() : async(false), nreq(0) {}
+
+  void Note(const char *name, const EchoRequest *request) {
+    g_ctx->svc << "|V" << vh::hex(string(name)) << ":" << vh::hex(request->SerializePartialAsString());
+  }
+  void Echo(RpcController *controller, const EchoRequest *request, EchoReply *response,
+            CompletionCallback *done) {
+    Note("Echo", request);
+    unsigned q = nreq++;
+    if (async) {
+      Pending p = {controller, response, done};
+      pending[q] = p;
+      return;
+    }
     response->set_data(request->data());
     done->Run();
   }
-  void FailedEcho(RpcController *controller, const EchoRequest *request, EchoReply*,
+  void FailedEcho(RpcController *controller, const EchoRequest *request, EchoReply *response,
                   CompletionCallback *done) {
-    g_ctx->svc << "|V" << vh::hex(string("FailedEcho")) << ":" << vh::hex(request->SerializePartialAsString());
+    Note("FailedEcho", request);
+    unsigned q = nreq++;
+    if (async) {
+      Pending p = {controller, response, done};
+      pending[q] = p;
+      return;
+    }
     controller->SetFailed("Error");
     done->Run();
   }
   void Stream(RpcController*, const EchoRequest *request, ola::rpc::STREAMING_NO_RESPONSE*,
               CompletionCallback *done) {
-    g_ctx->svc << "|V" << vh::hex(string("Stream")) << ":" << vh::hex(request->SerializePartialAsString());
-    if (done) done->Run();   // called through a plain REQUEST: reply with the empty message
+    Note("Stream", request);
+    if (done) {   // called through a plain REQUEST: reply with the empty message
+      nreq++;
+      done->Run();
+    }
+  }
+  // the script completes request q
+  void Complete(unsigned q, bool fail) {
+    std::map<unsigned, Pending>::iterator it = pending.find(q);
+    if (it == pending.end()) return;
+    Pending p = it->second;
+    pending.erase(it);
+    if (fail)
+      p.controller->SetFailed("Error");
+    else
+      p.response->set_data("r");
+    p.done->Run();
   }
 };
 
@@ -83,20 +132,167 @@ void OnDone(Call *c) {
     g_ctx->done << "R:" << vh::hex(c->reply.SerializePartialAsString());
 }
 
-void OnChannelClose(ola::rpc::RpcSession*) { g_ctx->handler_runs++; }
+void OnChannelCloseA(ola::rpc::RpcSession*) { g_ctx->handler_runs[0]++; }
+void OnChannelCloseB(ola::rpc::RpcSession*) { g_ctx->handler_runs[1]++; }
 
 // poller: while the descriptor is open and readable call DescriptorReady
-void Drain(RpcChannel *channel, ola::io::UnixSocket *sock) {
+bool Drain(RpcChannel *channel, ola::io::ConnectedDescriptor *sock) {
+  bool any = false;
   for (unsigned guard = 0; guard < 5000000; guard++) {
-    if (!sock->ValidReadDescriptor()) return;
+    if (!sock->ValidReadDescriptor()) return any;
     int before = sock->DataRemaining();
-    if (before <= 0) return;
+    if (before <= 0) return any;
     channel->DescriptorReady();
-    if (sock->ValidReadDescriptor() && sock->DataRemaining() == before) return;  // no progress
+    any = true;
+    if (sock->ValidReadDescriptor() && sock->DataRemaining() == before) return any;  // no progress
   }
+  return any;
+}
+
+// the application calls a method through the channel
+struct Caller {
+  std::vector<Call*> calls;
+  unsigned ncalls;
+  EchoRequest echo_request;
+  ola::proto::PluginListRequest plugin_request;
+  ola::proto::DmxData dmx;
+  Caller() : ncalls(0) {
+    echo_request.set_data("x");
+    dmx.set_universe(1);
+    dmx.set_data("d");
+  }
+  ~Caller() { for (size_t i = 0; i < calls.size(); i++) delete calls[i]; }
+  bool Do(RpcChannel *channel, const string &code) {
+    const google::protobuf::ServiceDescriptor *ts = ola::rpc::TestService::descriptor();
+    const google::protobuf::ServiceDescriptor *os = ola::proto::OlaServerService::descriptor();
+    unsigned k = ncalls++;
+    if (code == "t") {
+      channel->CallMethod(ts->FindMethodByName("Stream"), NULL, &echo_request, NULL, NULL);
+      return true;
+    }
+    if (code == "d") {
+      channel->CallMethod(os->FindMethodByName("StreamDmxData"), NULL, &dmx, NULL, NULL);
+      return true;
+    }
+    Call *call = new Call();
+    call->k = k;
+    calls.push_back(call);
+    if (code == "" || code == "e") {
+      channel->CallMethod(ts->FindMethodByName("Echo"), &call->controller, &echo_request, &call->reply,
+                          ola::NewSingleCallback(&OnDone, call));
+    } else if (code == "f") {
+      channel->CallMethod(ts->FindMethodByName("FailedEcho"), &call->controller, &echo_request, &call->reply,
+                          ola::NewSingleCallback(&OnDone, call));
+    } else if (code == "g") {
+      // the channel parses whatever reply arrives into the message it is given; use an EchoReply so
+      // that the completion's payload can be reported like the others
+      channel->CallMethod(os->FindMethodByName("GetPlugins"), &call->controller, &plugin_request,
+                          &call->reply, ola::NewSingleCallback(&OnDone, call));
+    } else {
+      return false;
+    }
+    return true;
+  }
+};
+
+string Counters(ola::ExportMap *export_map) {
+  std::ostringstream out;
+  ola::UIntMap *types = export_map->GetUIntMapVar("rpc-received-type", "type");
+  out << "|rx" << export_map->GetCounterVar("rpc-received")->Get()
+      << "/" << (*types)["request"] << "/" << (*types)["response"] << "/" << (*types)["cancelled"]
+      << "/" << (*types)["failed"] << "/" << (*types)["not-implemented"] << "/" << (*types)["stream_request"];
+  return out.str();
+}
+
+string HandleTwo(const vector<string> &toks) {
+  Ctx ctx;
+  g_ctx = &ctx;
+  ola::ExportMap map_a, map_b;
+  Service service;
+  ola::io::PipeDescriptor pa;
+  if (!pa.Init()) return "harness-error=pipe";
+  std::auto_ptr<ola::io::PipeDescriptor> pb(pa.OppositeEnd());
+  Caller caller;
+  std::ostringstream out;
+  {
+    RpcChannel a(NULL, &pa, &map_a);
+    RpcChannel b(&service, pb.get(), &map_b);
+    a.SetChannelCloseHandler(ola::NewSingleCallback(&OnChannelCloseA));
+    b.SetChannelCloseHandler(ola::NewSingleCallback(&OnChannelCloseB));
+    unsigned idx = 0;
+    for (size_t t = 0; t < toks.size(); t++) {
+      const string &tok = toks[t];
+      if (tok.empty()) continue;
+      char c = tok[0];
+      string rest = tok.substr(1);
+      if (c == '@' || c == 'T' || c == 'Q' || c == '2') continue;
+      if (c == 'A') { service.async = true; continue; }
+      if (c == 'q') { a.m_sequence.m_sequence_number = static_cast<uint32_t>(vh::num(rest)); continue; }
+      std::ostringstream svc_b;
+      if (c == 'm') {
+        if (!caller.Do(&a, rest)) return "harness-error=call";
+      } else if (c == 'k') {
+        service.Complete(vh::num(rest.substr(0, rest.size() - 1)), rest[rest.size() - 1] == 'F');
+      } else {
+        return "harness-error=token";
+      }
+      // deliver everything in flight, B first, until quiet
+      for (unsigned guard = 0; guard < 1000; guard++) {
+        bool any = Drain(&b, pb.get());
+        any = Drain(&a, &pa) || any;
+        if (!any) break;
+      }
+      out << "o" << idx << "=x" << (pa.ValidReadDescriptor() ? 0 : 1) << (a.m_descriptor ? 0 : 1)
+          << Counters(&map_a) << ctx.done.str() << "|H" << ctx.handler_runs[0]
+          << "#x" << (pb->ValidReadDescriptor() ? 0 : 1) << (b.m_descriptor ? 0 : 1)
+          << Counters(&map_b) << ctx.svc.str() << "|H" << ctx.handler_runs[1] << ";";
+      ctx.done.str("");
+      ctx.svc.str("");
+      idx++;
+    }
+    // requests the service never completed: their callbacks (and OutstandingRequests) are dropped
+  }
+  out << "hazard=none";
+  g_ctx = NULL;
+  return out.str();
+}
+
+// oracle mode "P <hex> <hex> ...": what the real RpcMessage parser makes of each body
+// (used by the generator to fill the decode table for arbitrary bodies)
+string HandleParse(const vector<string> &toks) {
+  std::ostringstream out;
+  for (size_t t = 1; t < toks.size(); t++) {
+    vector<uint8_t> b = vh::unhex(toks[t]);
+    RpcMessage m;
+    out << "p" << (t - 1) << "=";
+    if (!m.ParseFromArray(b.data(), b.size()))
+      out << "none;";
+    else
+      out << m.type() << "," << m.id() << "," << vh::hex(m.name()) << "," << vh::hex(m.buffer()) << ";";
+    // does its buffer parse as the test service's request, and what would Echo reply
+    EchoRequest rq;
+    out << "q" << (t - 1) << "=";
+    if (m.has_buffer() && rq.ParseFromString(m.buffer())) {
+      EchoReply rp;
+      rp.set_data(rq.data());
+      out << vh::hex(rp.SerializeAsString()) << ";";
+    } else {
+      out << "none;";
+    }
+    // would a reply with this buffer be reported back unchanged by a completion (EchoReply round trip)
+    EchoReply back;
+    back.ParsePartialFromString(m.buffer());
+    out << "r" << (t - 1) << "=" << (back.SerializePartialAsString() == m.buffer() ? "1" : "0") << ";";
+  }
+  out << "hazard=none";
+  return out.str();
 }
 
 string Handle(const string &payload) {
+  vector<string> toks = vh::split(payload);
+  if (!toks.empty() && toks[0] == "P") return HandleParse(toks);
+  for (size_t t = 0; t < toks.size(); t++)
+    if (toks[t] == "2") return HandleTwo(toks);
   Ctx ctx;
   g_ctx = &ctx;
   ola::ExportMap export_map;
@@ -107,25 +303,21 @@ string Handle(const string &payload) {
   std::auto_ptr<ola::io::UnixSocket> peer_holder(peer);
   int pfd = peer->ReadDescriptor();
   int cfd = sock.ReadDescriptor();
-  std::vector<Call*> calls;
+  Caller caller;
   string pending_out;   // bytes the channel sent that do not form a whole frame yet
   std::ostringstream out;
   bool jam = false;
   {
     RpcChannel channel(&service, &sock, &export_map);
-    channel.SetChannelCloseHandler(ola::NewSingleCallback(&OnChannelClose));
-    const google::protobuf::MethodDescriptor *echo =
-        ola::rpc::TestService::descriptor()->FindMethodByName("Echo");
-    EchoRequest request;
-    request.set_data("x");
+    channel.SetChannelCloseHandler(ola::NewSingleCallback(&OnChannelCloseA));
     unsigned idx = 0;
-    vector<string> toks = vh::split(payload);
     for (size_t t = 0; t < toks.size(); t++) {
       const string &tok = toks[t];
       if (tok.empty()) continue;
       char c = tok[0];
       string rest = tok.substr(1);
       if (c == '@' || c == 'T' || c == 'Q') continue;
+      if (c == 'A') { service.async = true; continue; }
       if (c == 'z') {
         // fill the channel's send direction so that every later Send() fails; stop reading our end
         char junk[4096];
@@ -152,11 +344,9 @@ string Handle(const string &payload) {
         }
         Drain(&channel, &sock);
       } else if (c == 'm') {
-        Call *call = new Call();
-        call->k = calls.size();
-        calls.push_back(call);
-        channel.CallMethod(echo, &call->controller, &request, &call->reply,
-                           ola::NewSingleCallback(&OnDone, call));
+        if (!caller.Do(&channel, rest)) return "harness-error=call";
+      } else if (c == 'k') {
+        service.Complete(vh::num(rest.substr(0, rest.size() - 1)), rest[rest.size() - 1] == 'F');
       } else {
         return "harness-error=token";
       }
@@ -181,12 +371,9 @@ string Handle(const string &payload) {
           pending_out.erase(0, 4 + size);
         }
       }
-      ola::UIntMap *types = export_map.GetUIntMapVar("rpc-received-type", "type");
       out << "o" << idx << "=x" << (sock.ValidReadDescriptor() ? 0 : 1) << (channel.m_descriptor ? 0 : 1)
-          << "|rx" << export_map.GetCounterVar("rpc-received")->Get()
-          << "/" << (*types)["request"] << "/" << (*types)["response"] << "/" << (*types)["cancelled"]
-          << "/" << (*types)["failed"] << "/" << (*types)["not-implemented"] << "/" << (*types)["stream_request"]
-          << ctx.done.str() << sent.str() << ctx.svc.str() << "|H" << ctx.handler_runs << ";";
+          << Counters(&export_map) << ctx.done.str() << sent.str() << ctx.svc.str() << "|H"
+          << ctx.handler_runs[0] << ";";
       ctx.done.str("");
       ctx.svc.str("");
       out << "i" << idx << "=e" << channel.m_expected_size << "c" << channel.m_current_size
@@ -195,8 +382,6 @@ string Handle(const string &payload) {
       idx++;
     }
   }
-  // Outstanding callbacks are never run by the channel's destructor; release them.
-  for (size_t i = 0; i < calls.size(); i++) delete calls[i];
   out << "hazard=none";
   g_ctx = NULL;
   return out.str();
